@@ -46,14 +46,15 @@ Qed.
 (* is_equal / is_prefix / is_suffix: see Props/C18.v (C18_is_equal etc. include loads_ok) *)
 
 (* Rabin-Karp with ANY finder (e.g. built from another needle) and any argument needle *)
-Theorem C05_rabinkarp_foreign : forall (f : rkfinder) x h,
-  (exists r, fst (rk_find f x h) = Ok r) /\ loads_ok 0 (length h) 0 (length x) (snd (rk_find f x h)) /\
-  (exists r, fst (rk_rfind f x h) = Ok r) /\ loads_ok 0 (length h) 0 (length x) (snd (rk_rfind f x h)).
+Theorem C05_rabinkarp_foreign : forall (f : rkfinder) x h a an,
+  (exists r, fst (rk_find f x h) = Ok r) /\ loads_ok a (length h) an (length x) (snd (rk_find f x h)) /\
+  (exists r, fst (rk_rfind f x h) = Ok r) /\ loads_ok a (length h) an (length x) (snd (rk_rfind f x h)).
 Proof.
-  intros f x h.
+  intros f x h a an.
   destruct (satq_fst _ _ _ (rk_find_safe f x h)) as (v & Hv & _ & Ht).
   destruct (satq_fst _ _ _ (rk_rfind_safe f x h)) as (v' & Hv' & _ & Ht').
-  repeat split; try assumption; eexists; eassumption.
+  split; [eexists; exact Hv|]. split; [eapply Forall_impl; [|exact Ht]; intros e He; apply He|].
+  split; [eexists; exact Hv'|]. eapply Forall_impl; [|exact Ht']. intros e He. apply He.
 Qed.
 
 (* packed-pair find with an ARBITRARY argument needle (longer than the haystack included):
@@ -86,12 +87,14 @@ Proof.
 Qed.
 
 (* Two-Way preprocessing: its only raw loads (is_suffix / is_prefix) are inside the needle *)
-Theorem C05_twoway_new : forall x,
-  loads_ok 0 0 0 (length x) (snd (tw_new x)) /\ loads_ok 0 0 0 (length x) (snd (tw_new_rev x)).
+Theorem C05_twoway_new : forall x an,
+  loads_ok 0 0 an (length x) (snd (tw_new x)) /\ loads_ok 0 0 an (length x) (snd (tw_new_rev x)).
 Proof.
-  intros x. split.
-  - destruct (satq_fst _ _ _ (tw_new_ok x)) as (r & _ & _ & Ht). exact Ht.
-  - destruct (satq_fst _ _ _ (tw_new_rev_ok x)) as (r & _ & _ & Ht). exact Ht.
+  intros x an. split.
+  - destruct (satq_fst _ _ _ (tw_new_ok x)) as (r & _ & _ & Ht).
+    eapply Forall_impl; [|exact Ht]. intros e He. apply He.
+  - destruct (satq_fst _ _ _ (tw_new_rev_ok x)) as (r & _ & _ & Ht).
+    eapply Forall_impl; [|exact Ht]. intros e He. apply He.
 Qed.
 
 (* Shift-Or performs no raw loads at all (bounds-checked indexing only) *)
